@@ -22,8 +22,8 @@
 size_t _cbor_encoded_header_size(uint64_t size);
 
 /* ------------------------------------------------------------------ output buffer */
-static char* ob;
-static size_t ob_len, ob_cap;
+static __thread char* ob;
+static __thread size_t ob_len, ob_cap;
 static void ob_reset(void) { ob_len = 0; if (ob) ob[0] = 0; }
 static void ob_printf(const char* fmt, ...) {
   va_list ap;
@@ -39,13 +39,13 @@ static void ob_printf(const char* fmt, ...) {
 
 /* ------------------------------------------------------------------ allocator */
 static size_t a_cap = (size_t)1 << 20; /* requests above this are refused */
-static long a_live;                    /* live blocks */
-static unsigned long a_requests;       /* malloc + realloc calls */
-static long a_refuse_at = -1;          /* index of the request to refuse (-1: none) */
-static bool a_refuse_from;             /* refuse every request from a_refuse_at on */
-static bool a_record_only;             /* record the size, grant nothing */
-static size_t a_last_size;
-static bool a_called;
+static __thread long a_live;                    /* live blocks */
+static __thread unsigned long a_requests;       /* malloc + realloc calls */
+static __thread long a_refuse_at = -1;          /* index of the request to refuse (-1: none) */
+static __thread bool a_refuse_from;             /* refuse every request from a_refuse_at on */
+static __thread bool a_record_only;             /* record the size, grant nothing */
+static __thread size_t a_last_size;
+static __thread bool a_called;
 
 static bool a_should_refuse(size_t size) {
   unsigned long idx = a_requests++;
@@ -113,9 +113,9 @@ static float bits2f(uint32_t u) { float f; memcpy(&f, &u, 4); return f; }
 static double bits2d(uint64_t u) { double f; memcpy(&f, &u, 8); return f; }
 
 /* ------------------------------------------------------------------ recording callbacks */
-static const unsigned char* rec_base;
-static int rec_count;
-static bool rec_offsets = true;
+static __thread const unsigned char* rec_base;
+static __thread int rec_count;
+static __thread bool rec_offsets = true;
 static void rec_sep(void) { if (rec_count++) ob_printf(","); }
 static void r_uint8(void* c, uint8_t v) { (void)c; rec_sep(); ob_printf("u8:%u", v); }
 static void r_uint16(void* c, uint16_t v) { (void)c; rec_sep(); ob_printf("u16:%u", v); }
@@ -262,7 +262,7 @@ static void do_encdec(char* line) {
 }
 
 /* ------------------------------------------------------------------ item dump */
-static bool dump_rc_ok;
+static __thread bool dump_rc_ok;
 static void dump_item(cbor_item_t* it) {
   if (cbor_refcount(it) != 1) dump_rc_ok = false;
   switch (cbor_typeof(it)) {
@@ -391,8 +391,70 @@ static void do_load(char* line) {
   }
 }
 
+/* ------------------------------------------------------------------ stream: loadpost / depth (C01, C19)
+ * decode, then everything a client does with a decoded tree: describe, size, serialize, copy, release */
+#include <pthread.h>
+static void load_post_body(char* line) {
+  size_t n;
+  unsigned char* buf = parse_hex(line, &n);
+  struct cbor_load_result res;
+  memset(&res, 0xAA, sizeof res);
+  a_reset(); a_live = 0;
+  cbor_item_t* it = cbor_load(buf, n, &res);
+  memset(buf, 0xEE, n); free(buf);
+  if (it) {
+    ob_printf("ok %zu ", res.read);
+    dump_rc_ok = true; dump_item(it);
+    if (!dump_rc_ok) ob_printf(" RC=BAD");
+    if (!tree_full(it)) ob_printf(" NOTFULL");
+    static FILE* devnull; if (!devnull) devnull = fopen("/dev/null", "w");
+    cbor_describe(it, devnull);
+    size_t sz = cbor_serialized_size(it);
+    unsigned char* out = malloc(sz ? sz : 1);
+    size_t w = cbor_serialize(it, out, sz);
+    cbor_item_t* cp = cbor_copy(it);
+    int same = 0;
+    if (cp) {
+      unsigned char* out2 = malloc(sz ? sz : 1);
+      size_t w2 = cbor_serialize(cp, out2, sz);
+      same = (w2 == w && memcmp(out, out2, w) == 0);
+      free(out2);
+      cbor_decref(&cp);
+    }
+    free(out);
+    ob_printf(" post=%zu:%zu:%d", sz, w, same);
+    cbor_decref(&it);
+    if (a_live != 0) ob_printf(" LEAK=%ld", a_live);
+  } else {
+    ob_printf("err %s %zu %zu", err_s(res.error.code), res.error.position, res.read);
+    if (a_live != 0) ob_printf(" LEAK=%ld", a_live);
+  }
+}
+static void do_loadpost(char* line) { load_post_body(line); }
+struct depth_arg { char* line; char* out; };
+static void* depth_thread(void* p) {
+  struct depth_arg* a = p;
+  ob_reset();
+  load_post_body(a->line);
+  a->out = strdup(ob ? ob : "");
+  free(ob); ob = NULL; ob_len = ob_cap = 0;
+  return NULL;
+}
+/* the whole pipeline on a thread whose stack is small and proportional to the nesting limit */
+static void do_depth(char* line) {
+  pthread_attr_t at; pthread_attr_init(&at);
+  size_t stack = (size_t)131072 + (size_t)CBOR_MAX_STACK_SIZE * 768;
+  pthread_attr_setstacksize(&at, stack);
+  struct depth_arg a = {line, NULL};
+  pthread_t th;
+  if (pthread_create(&th, &at, depth_thread, &a) != 0) { ob_printf("THREADFAIL"); return; }
+  pthread_join(th, NULL);
+  ob_printf("%s", a.out ? a.out : "NOOUT");
+  free(a.out);
+}
+
 /* ------------------------------------------------------------------ S-expression -> item (public API) */
-static char* sx; /* cursor */
+static __thread char* sx; /* cursor */
 static void sx_ws(void) { while (*sx == ' ') sx++; }
 static bool sx_word(char* out, size_t cap) {
   sx_ws();
@@ -409,7 +471,7 @@ static char* sx_word_dyn(void) {
   char* r = malloc(l + 1); memcpy(r, s, l); r[l] = 0;
   return r;
 }
-static bool build_failed;
+static __thread bool build_failed;
 static cbor_item_t* build_item(void);
 static cbor_item_t* build_chunked(bool text) {
   cbor_item_t* r = text ? cbor_new_indefinite_string() : cbor_new_indefinite_bytestring();
@@ -527,6 +589,30 @@ static void do_ser(char* line) {
   if (a_live != 0) ob_printf(" LEAK=%ld", a_live);
 }
 
+/* ------------------------------------------------------------------ stream: seq (C14 CBOR sequences) */
+static void do_seq(char* line) {
+  size_t n; unsigned char* all = parse_hex(line, &n);
+  size_t off = 0; int k = 0;
+  a_reset(); a_live = 0;
+  while (off < n && k < 64) {
+    /* present exactly the remainder in an exactly-sized block */
+    size_t rem = n - off;
+    unsigned char* buf = malloc(rem); memcpy(buf, all + off, rem);
+    struct cbor_load_result res; memset(&res, 0xAA, sizeof res);
+    cbor_item_t* it = cbor_load(buf, rem, &res);
+    free(buf);
+    if (k) ob_printf(" ");
+    if (!it) { ob_printf("err:%s:%zu", err_s(res.error.code), res.error.position); break; }
+    ob_printf("ok:%zu:", res.read); dump_rc_ok = true; dump_item(it);
+    cbor_decref(&it);
+    if (res.read == 0) { ob_printf(" ZEROREAD"); break; }
+    off += res.read; k++;
+  }
+  ob_printf(" end=%zu/%zu", off, n);
+  if (a_live != 0) ob_printf(" LEAK=%ld", a_live);
+  free(all);
+}
+
 /* ------------------------------------------------------------------ stream: rt (C03 round trip) */
 static void do_rt(char* line) {
   a_reset(); a_live = 0;
@@ -553,6 +639,80 @@ static void do_rt(char* line) {
   if (b1) hx_free(b1);
   cbor_decref(&it);
   if (a_live != 0) ob_printf(" LEAK=%ld", a_live);
+}
+
+/* ------------------------------------------------------------------ stream: copy (C11) */
+struct aset { void** p; size_t n, cap; };
+static void aset_add(struct aset* s, void* p) {
+  if (!p) return;
+  if (s->n == s->cap) { s->cap = s->cap ? s->cap * 2 : 64; s->p = realloc(s->p, s->cap * sizeof(void*)); }
+  s->p[s->n++] = p;
+}
+static bool all_rc1;
+static void collect(cbor_item_t* it, struct aset* s) {
+  aset_add(s, it);
+  if (cbor_refcount(it) != 1) all_rc1 = false;
+  switch (cbor_typeof(it)) {
+    case CBOR_TYPE_BYTESTRING: case CBOR_TYPE_STRING: {
+      bool def = cbor_isa_string(it) ? cbor_string_is_definite(it) : cbor_bytestring_is_definite(it);
+      if (def) aset_add(s, it->data);
+      else {
+        struct cbor_indefinite_string_data* d = (struct cbor_indefinite_string_data*)it->data;
+        aset_add(s, d); aset_add(s, d->chunks);
+        for (size_t i = 0; i < d->chunk_count; i++) collect(d->chunks[i], s);
+      }
+      break;
+    }
+    case CBOR_TYPE_ARRAY:
+      aset_add(s, it->data);
+      for (size_t i = 0; i < cbor_array_size(it); i++) collect(cbor_array_handle(it)[i], s);
+      break;
+    case CBOR_TYPE_MAP:
+      aset_add(s, it->data);
+      for (size_t i = 0; i < cbor_map_size(it); i++) { collect(cbor_map_handle(it)[i].key, s); collect(cbor_map_handle(it)[i].value, s); }
+      break;
+    case CBOR_TYPE_TAG:
+      if (it->metadata.tag_metadata.tagged_item) collect(it->metadata.tag_metadata.tagged_item, s);
+      break;
+    default: break;
+  }
+}
+static char* ser_hex(cbor_item_t* it) {
+  unsigned char* b; size_t n;
+  size_t r = cbor_serialize_alloc(it, &b, &n);
+  char* h = malloc(2 * r + 2); h[0] = 0;
+  for (size_t i = 0; i < r; i++) sprintf(h + 2 * i, "%02x", b[i]);
+  if (b) hx_free(b);
+  return h;
+}
+static void do_copy(char* line) {
+  a_reset(); a_live = 0;
+  cbor_item_t* src = item_of_sexp(line);
+  if (!src) { ob_printf("BADCASE"); return; }
+  char* before = ser_hex(src);
+  size_t mark = ob_len; dump_rc_ok = true; dump_item(src); char* shape_before = strdup(ob + mark); ob_len = mark; ob[mark] = 0;
+  bool src_rc_before = dump_rc_ok;
+  cbor_item_t* cp = cbor_copy(src);
+  if (!cp) { ob_printf("copy=NULL"); cbor_decref(&src); free(before); free(shape_before); return; }
+  char* cser = ser_hex(cp);
+  mark = ob_len; dump_rc_ok = true; dump_item(cp); char* shape_copy = strdup(ob + mark); ob_len = mark; ob[mark] = 0;
+  char* after = ser_hex(src);
+  mark = ob_len; dump_rc_ok = true; dump_item(src); char* shape_after = strdup(ob + mark); ob_len = mark; ob[mark] = 0;
+  bool src_rc_after = dump_rc_ok;
+  struct aset s1 = {0}, s2 = {0};
+  all_rc1 = true; collect(src, &s1);
+  all_rc1 = true; collect(cp, &s2); bool rc1 = all_rc1;
+  bool disjoint = true;
+  for (size_t i = 0; i < s1.n && disjoint; i++) for (size_t j = 0; j < s2.n; j++) if (s1.p[i] == s2.p[j]) { disjoint = false; break; }
+  ob_printf("equal=%d shape=%d disjoint=%d rc1=%d src_unchanged=%d", !strcmp(before, cser), !strcmp(shape_before, shape_copy), disjoint, rc1,
+            !strcmp(before, after) && !strcmp(shape_before, shape_after) && src_rc_before == src_rc_after);
+  /* independence: release the source, the copy must be intact; then release the copy: nothing left */
+  cbor_decref(&src);
+  char* c2 = ser_hex(cp);
+  ob_printf(" after_release=%d", !strcmp(c2, cser));
+  cbor_decref(&cp);
+  ob_printf(" live=%ld", a_live);
+  free(before); free(cser); free(after); free(c2); free(shape_before); free(shape_copy); free(shape_after); free(s1.p); free(s2.p);
 }
 
 /* ------------------------------------------------------------------ stream: utf8 / dfa */
@@ -701,7 +861,7 @@ int main(int argc, char** argv) {
            sizeof(struct cbor_pair), sizeof(struct cbor_indefinite_string_data), sizeof(struct _cbor_stack_record));
     return 0;
   }
-  if ((!strcmp(stream, "load") || !strcmp(stream, "rt")) && argc >= 4) {
+  if ((!strcmp(stream, "load") || !strcmp(stream, "rt") || !strcmp(stream, "loadpost") || !strcmp(stream, "depth") || !strcmp(stream, "seq")) && argc >= 4) {
     /* argv[2] = expected L (checked), argv[3] = allocator cap */
     if ((long)CBOR_MAX_STACK_SIZE != atol(argv[2])) { fprintf(stderr, "hx: library L=%d, asked %s\n", (int)CBOR_MAX_STACK_SIZE, argv[2]); return 2; }
     a_cap = (size_t)strtoull(argv[3], NULL, 0);
@@ -712,8 +872,12 @@ int main(int argc, char** argv) {
   else if (!strcmp(stream, "enc")) f = do_enc;
   else if (!strcmp(stream, "encdec")) f = do_encdec;
   else if (!strcmp(stream, "load")) f = do_load;
+  else if (!strcmp(stream, "loadpost")) f = do_loadpost;
+  else if (!strcmp(stream, "depth")) f = do_depth;
+  else if (!strcmp(stream, "copy")) f = do_copy;
   else if (!strcmp(stream, "ser")) f = do_ser;
   else if (!strcmp(stream, "rt")) f = do_rt;
+  else if (!strcmp(stream, "seq")) f = do_seq;
   else if (!strcmp(stream, "utf8")) f = do_utf8;
   else if (!strcmp(stream, "dfa")) f = do_dfa;
   else if (!strcmp(stream, "mem")) f = do_mem;
